@@ -158,8 +158,8 @@ class failing_result_write:
     reaches the file, then write() raises; stage 'close' -- the data is still buffered when close() fails to
     flush it (the file stays empty).  Done by replacing `open` in xyzpy.gen.cropping for result files only."""
 
-    def __init__(self, stage):
-        self.stage = stage
+    def __init__(self, stage, pattern="xyz-result-"):
+        self.stage, self.pattern = stage, pattern
 
     def __enter__(self):
         import builtins
@@ -167,7 +167,7 @@ class failing_result_write:
         self.M = M
         self.had = "open" in M.__dict__
         self.old = M.__dict__.get("open")
-        stage = self.stage
+        stage, pattern = self.stage, self.pattern
 
         class Writer:
             def __init__(self, real):
@@ -201,7 +201,7 @@ class failing_result_write:
 
         def x_open(path, mode="r", *a, **k):
             real = builtins.open(path, mode, *a, **k)
-            if "xyz-result-" in os.path.basename(str(path)) and "w" in mode:
+            if pattern in os.path.basename(str(path)) and "w" in mode:
                 return Writer(real)
             return real
         M.open = x_open
@@ -291,6 +291,18 @@ class CropRun:
                                          constants=sw.consts or None, verbosity=0,
                                          batchsize=bs, num_batches=nb)
                 else:
+                    self.crop.sow_combos(dict(sw.combos) if sw.combos else None,
+                                         cases=sw.cases_dicts() if sw.cases else None,
+                                         constants=sw.consts or None, shuffle=sown.shuffle, verbosity=0,
+                                         batchsize=bs, num_batches=nb)
+            elif kind == "sow_dies":
+                # the very first sow fails while its first batch file is written (full disk): the settings are
+                # there, no batch is
+                _, sown, bs, nb = op
+                self.crop = self.new_crop(sown.sw)
+                self.sown = sown
+                sw = sown.sw
+                with failing_result_write("write", pattern="xyz-batch-"):
                     self.crop.sow_combos(dict(sw.combos) if sw.combos else None,
                                          cases=sw.cases_dicts() if sw.cases else None,
                                          constants=sw.consts or None, shuffle=sown.shuffle, verbosity=0,
@@ -400,6 +412,8 @@ def coq_op(op):
         return f"ODelete {op[1]}"
     if k == "check_bad":
         return "OCheckBad"
+    if k == "sow_dies":
+        return f"OSowDies {op[1].coq_input()} {zopt(op[2])} {zopt(op[3])}"
     if k == "tear_check":
         return f"OTearCheck {op[1]} {'true' if op[2] else 'false'}"
     if k == "check_bad_keep":
@@ -417,6 +431,6 @@ def coq_op(op):
 
 
 def describe_op(op):
-    if op[0] == "sow":
-        return ["sow", op[1].sw.describe(), {"shuffle": op[1].shuffle, "via": op[1].via, "ctor_shuffle": op[1].ctor_shuffle, "bs": op[2], "nb": op[3]}]
+    if op[0] in ("sow", "sow_dies"):
+        return [op[0], op[1].sw.describe(), {"shuffle": op[1].shuffle, "via": op[1].via, "ctor_shuffle": op[1].ctor_shuffle, "bs": op[2], "nb": op[3]}]
     return list(op)
